@@ -99,3 +99,151 @@ func (o *Once) Do(f func()) {
 		f()
 	}
 }
+
+// Pool is a deterministic stand-in for sync.Pool: a LIFO free list (no per-P caches, never dropped by GC).
+// Get and Put are scheduling points, so a value handed back too early can be picked up by another thread.
+type Pool struct {
+	New   func() any
+	items []any
+	o     mc.Obj
+	reg   bool
+}
+
+// a real sync.Pool may drop its contents at any time; the stand-in drops them between executions
+func (p *Pool) register() {
+	if !p.reg {
+		p.reg = true
+		mc.OnRun(func() { p.items = nil })
+	}
+}
+
+func (p *Pool) Get() any {
+	p.register()
+	var v any
+	have := false
+	mc.Simple("poolget", func() bool { return true }, func() {
+		if n := len(p.items); n > 0 {
+			v, have = p.items[n-1], true
+			p.items = p.items[:n-1]
+		}
+		mc.Ordered(&p.o, 50, true)
+	})
+	if !have && p.New != nil {
+		return p.New()
+	}
+	return v
+}
+
+func (p *Pool) Put(x any) {
+	if x == nil {
+		return
+	}
+	p.register()
+	mc.Simple("poolput", func() bool { return true }, func() {
+		p.items = append(p.items, x)
+		mc.Ordered(&p.o, 51, false)
+	})
+}
+
+// Cond mirrors sync.Cond on top of the controlled runtime.
+type Cond struct {
+	L       Locker
+	waiters []*bool
+	o       mc.Obj
+}
+
+func NewCond(l Locker) *Cond { return &Cond{L: l} }
+
+func (c *Cond) Wait() {
+	woken := false
+	c.waiters = append(c.waiters, &woken)
+	c.L.Unlock()
+	mc.Simple("condwait", func() bool { return woken }, func() { mc.Ordered(&c.o, 60, true) })
+	c.L.Lock()
+}
+
+func (c *Cond) Signal() {
+	mc.Simple("condsignal", func() bool { return true }, func() {
+		if len(c.waiters) > 0 {
+			*c.waiters[0] = true
+			c.waiters = c.waiters[1:]
+		}
+		mc.Ordered(&c.o, 61, false)
+	})
+}
+
+func (c *Cond) Broadcast() {
+	mc.Simple("condbroadcast", func() bool { return true }, func() {
+		for _, w := range c.waiters {
+			*w = true
+		}
+		c.waiters = nil
+		mc.Ordered(&c.o, 62, false)
+	})
+}
+
+// Map is a small ordered stand-in for sync.Map (iteration in insertion order keeps executions deterministic).
+type Map struct {
+	keys []any
+	vals map[any]any
+	mu   Mutex
+}
+
+func (m *Map) Load(k any) (any, bool) {
+	m.mu.Lock()
+	defer m.mu.Unlock()
+	v, ok := m.vals[k]
+	return v, ok
+}
+
+func (m *Map) Store(k, v any) {
+	m.mu.Lock()
+	defer m.mu.Unlock()
+	if m.vals == nil {
+		m.vals = map[any]any{}
+	}
+	if _, ok := m.vals[k]; !ok {
+		m.keys = append(m.keys, k)
+	}
+	m.vals[k] = v
+}
+
+func (m *Map) LoadOrStore(k, v any) (any, bool) {
+	m.mu.Lock()
+	defer m.mu.Unlock()
+	if m.vals == nil {
+		m.vals = map[any]any{}
+	}
+	if old, ok := m.vals[k]; ok {
+		return old, true
+	}
+	m.keys = append(m.keys, k)
+	m.vals[k] = v
+	return v, false
+}
+
+func (m *Map) Delete(k any) {
+	m.mu.Lock()
+	defer m.mu.Unlock()
+	if _, ok := m.vals[k]; ok {
+		delete(m.vals, k)
+		for i, x := range m.keys {
+			if x == k {
+				m.keys = append(m.keys[:i], m.keys[i+1:]...)
+				break
+			}
+		}
+	}
+}
+
+func (m *Map) Range(f func(k, v any) bool) {
+	m.mu.Lock()
+	keys := append([]any{}, m.keys...)
+	m.mu.Unlock()
+	for _, k := range keys {
+		v, ok := m.Load(k)
+		if ok && !f(k, v) {
+			return
+		}
+	}
+}
